@@ -176,6 +176,22 @@ CHECKS = {
             {"harness": "c12_kvmodel", "mode": "conc", "flavour": "asan", "runs": {"quick": 8000, "thorough": 800000}, "wall": {"quick": 15, "thorough": 900}, "seed_off": 2},
         ],
     },
+    "C19": {
+        "level": "exploration",
+        "rule": ("cache job: each run = one seeded history of 6-65 steps over 6 names (three spellings of one name differing only in case, a name that extends another) x 3 types x 2 "
+                 "classes: put (0-4 records, each in a drawn one of the 11 record lists of DnsResult - answer/authority/additional and the typed lists -, TTLs from {0,1,2,5,7,60,300,3600,2^31,2^32-1}), putNegative from an SOA (minimum "
+                 "and TTL drawn independently) and with an explicit TTL, get, remove, clear, and clock advances aimed at each pending TTL (999 ms / 1 ms before, exactly on, 1 ms / "
+                 "999 ms after) or random; the purge thread runs on the simulated clock and is interleaved by the seeded scheduler; after EVERY step all 36 questions are probed and "
+                 "compared with a reference map holding the absolute expiry at the same frozen instant: a hit needs a live entry for exactly that question (c19-wrong-question, "
+                 "c19-served-after-ttl) and must return the last answer stored for it (c19-wrong-answer); a miss before expiry is counted, not flagged"),
+        "real": ["iora::network::dns::DnsCache", "iora::util::ExpiringCache incl. its purge thread", "std::chrono::steady_clock (reads the simulated CLOCK_MONOTONIC)"],
+        "stub": COMMON_STUB,
+        "assumptions": ["simulated time does not advance inside a cache operation (step cost 0), so store and model see the same instant",
+                        "names that differ only by a trailing dot are not used (the property leaves open whether they are the same question)"],
+        "jobs": [
+            {"harness": "c19_dnscache", "flavour": "asan", "runs": {"quick": 12000, "thorough": 1500000}, "wall": {"quick": 25, "thorough": 1500}},
+        ],
+    },
     "C20": {
         "level": "exploration",
         "rule": ("each run = a scratch tree (nested directories, inside- and outside-pointing symlinks to files and directories, an outside-pointing .gz sibling, secrets outside the "
